@@ -264,6 +264,29 @@ static void load_fixture(std::string const &repo)
   }
   closedir(d);
   for (auto const &kv : c10_extra_files()) FX.files[kv.first] = kv.second;
+  // auxiliary-file class of invalid input: every index file with one of its groups removed, or present but empty
+  std::map<std::string, std::string> derived;
+  for (auto const &kv : FX.files) {
+    if (kv.first.size() < 5 || kv.first.substr(kv.first.size() - 4) != ".ndx") continue;
+    std::vector<std::pair<std::string, std::string>> groups;  // name, body
+    std::istringstream gs(kv.second);
+    std::string ln;
+    while (std::getline(gs, ln)) {
+      std::string t = trim(ln);
+      if (t.size() > 2 && t[0] == '[') { groups.push_back({trim(t.substr(1, t.find(']') - 1)), ""}); continue; }
+      if (!groups.empty()) groups.back().second += ln + "\n";
+    }
+    for (size_t g = 0; g < groups.size(); g++)
+      for (int empty = 0; empty <= 1; empty++) {
+        std::string body;
+        for (size_t h = 0; h < groups.size(); h++) {
+          if (h == g && !empty) continue;
+          body += "[ " + groups[h].first + " ]\n" + ((h == g) ? std::string("\n") : groups[h].second);
+        }
+        derived[kv.first + (empty ? ".__empty_" : ".__no_") + groups[g].first] = body;
+      }
+  }
+  for (auto const &kv : derived) FX.files[kv.first] = kv.second;
 }
 
 // working directory of a shard: fixture files only; everything else is removed between cases
@@ -957,6 +980,26 @@ static void enum_block(int bi, Node &blk, std::vector<int> const &path, bool tho
       push(r);
     }
     // special values of a few keywords
+    if (kw == "indexfile" && m.kid >= 0 && !present_block) {
+      // the index file with one group removed / emptied, for every group this configuration refers to
+      // (by name, or through a "prefix" of group names)
+      std::string f = trim(blk.kids[m.kid].value);
+      std::string conf_text = emit(b.tree);
+      std::vector<std::string> toks = split_ws(conf_text);
+      std::set<std::string> words(toks.begin(), toks.end());
+      std::vector<std::string> prefixes;
+      for (size_t t = 0; t + 1 < toks.size(); t++) if (lower(toks[t]) == "prefix") prefixes.push_back(toks[t + 1]);
+      for (auto const &kv : FX.files) {
+        if (kv.first.rfind(f + ".__", 0) != 0) continue;
+        std::string g = kv.first.substr(kv.first.find("_", f.size() + 3) + 1);
+        bool used = words.count(g) > 0;
+        for (auto const &pf : prefixes) if (g.rfind(pf, 0) == 0) used = true;
+        if (!used) continue;
+        m.value = kv.first;
+        m.vclass = "ndx:" + kv.first.substr(f.size() + 3);
+        push(m);
+      }
+    }
     if (kw == "atomnumbersrange") {
       const char *sv[] = {"3-1", "0-2", "1-1000000", "2-2"};
       for (auto s : sv) { m.value = s; m.vclass = std::string("range:") + s; push(m); }
